@@ -37,6 +37,7 @@ def dispatch1 (op : String) (j : Json) : Except String Json :=
   | "gate.case" => GateCase.gateCase j
   | "pipe.compose" => pipeCompose j
   | "pipe.sys" => pipeSys j
+  | "reg.run" => regRun j
   | "filter.applies" => filterApplies j
   | "filter.case" => filterCase j
   | "valid.case" => validCase j
